@@ -281,6 +281,14 @@ func (a *AnySchema) checkAndConvert(data any) (any, error) {
 			if err != nil {
 				return nil, ConstraintErrorAddPathSegment(err, fmt.Sprintf("[%v]", key))
 			}
+			if _, exists := result[key]; exists {
+				// Two different keys (for example int64(1) and uint64(1)) were converted to the same key. Keeping
+				// one of the two entries would make the result depend on the map iteration order.
+				return nil, &ConstraintError{
+					Message: fmt.Sprintf("Duplicate key '%v' after key conversion", key),
+					Path:    []string{fmt.Sprintf("{%v}", k)},
+				}
+			}
 			result[key] = value
 		}
 		return result, nil
